@@ -207,6 +207,8 @@ static size_t hs_mutate(Rng *r, uint8_t *rec, size_t len, size_t cap, int tls13,
 	int consistent = !rng_chance(r, 1, 4);
 	int kind = (int)rng_below(r, 14);
 	what[0] = 0;
+	/* the Hello messages have their own family of field-aware mutators: use it half of the time */
+	if ((ht == TLS_handshake_client_hello || ht == TLS_handshake_server_hello) && rng_chance(r, 1, 2)) kind = 6;
 
 	if (ht == TLS_handshake_certificate && blen > 10 && kind < 8) {
 		/* re-frame the certificate list with one certificate mutated, or a huge list */
@@ -306,6 +308,30 @@ static size_t hs_mutate(Rng *r, uint8_t *rec, size_t len, size_t cap, int tls13,
 				/* drop everything after compression methods */
 				size_t at = 35 + body[34];
 				if (at + 2 <= blen) { at += 2 + (((size_t)body[at] << 8) | body[at + 1]); if (at < blen) { at += 1 + body[at]; if (at <= blen) { blen = at; snprintf(what, wl, "hello_without_extensions"); } } }
+			} else if (ht == TLS_handshake_client_hello && rng_chance(r, 1, 2)) {
+				/* one extension repeated many times, all lengths consistent */
+				size_t at = 35 + body[34];
+				if (at + 2 <= blen) { at += 2 + (((size_t)body[at] << 8) | body[at + 1]); }
+				if (at < blen) at += 1 + body[at];
+				if (at + 2 <= blen) {
+					size_t elen = ((size_t)body[at] << 8) | body[at + 1];
+					uint8_t *ex = body + at + 2;
+					if (at + 2 + elen <= blen && elen >= 4) {
+						size_t one = 4 + (((size_t)ex[2] << 8) | ex[3]);
+						if (one <= elen) {
+							int copies = 10 + (int)rng_below(r, 400);
+							size_t tot = elen;
+							uint8_t first[256];
+							if (one <= sizeof(first)) {
+								memcpy(first, ex, one);
+								for (int cpy = 0; cpy < copies && at + 2 + tot + one + 9 < cap && tot + one < 60000; cpy++) { memcpy(ex + tot, first, one); tot += one; }
+								body[at] = (uint8_t)(tot >> 8); body[at + 1] = (uint8_t)tot;
+								blen = at + 2 + tot;
+								snprintf(what, wl, "extension_x%d", copies);
+							}
+						}
+					}
+				}
 			} else if (ht == TLS_handshake_client_hello) {
 				size_t at = 35 + body[34];
 				if (at + 2 <= blen) { uint64_t v = (uint64_t[]){ 0, 1, 3, 65534, 65535 }[rng_below(r, 5)]; body[at] = (uint8_t)(v >> 8); body[at + 1] = (uint8_t)v; snprintf(what, wl, "cipher_list_len_%llu", (unsigned long long)v); }
